@@ -201,7 +201,8 @@ pub const GROUPS: &[(&str, &[&str])] = &[
             "exec.panic[rust:core/src/ops/arith.rs|attempt to negate with overflow]",
         ],
     ),
-    ("sum_extreme", &["exec.panic[vibesql-executor/src/simd/aggregation.rs|attempt to add with overflow]", "inexact.sum.float_rounded"]),
+    ("sum_extreme", &["exec.panic[vibesql-executor/src/simd/aggregation.rs|attempt to add with overflow]", "inexact.sum.float_rounded", "inexact.sum.float_wrong"]),
+    ("mod_min", &["exec.panic[vibesql-executor/src/evaluator/functions/numeric/basic.rs|attempt to calculate the remainder with overflow]"]),
     (
         "nonascii_store",
         &[
@@ -260,6 +261,8 @@ pub const GROUP_TRIGGERS: &[(&str, &[&str])] = &[
     ("locate_multibyte", &["fn:LOCATE", "world:nonascii"]),
     ("locate_min", &["fn:LOCATE", "world:int_extreme"]),
     ("abs_min", &["fn:ABS", "world:int_extreme"]),
+    ("mod_min", &["mod", "world:int_extreme"]),
+    ("mod_min", &["fn:MOD", "world:int_extreme"]),
 ];
 
 pub fn avoiding_group(cfg: &GenCfg, group: &str) -> bool {
@@ -962,7 +965,8 @@ pub fn step(db: &mut Database, sql: &str) -> Step {
 }
 
 fn release_note(desc: &str) -> &'static str {
-    if desc.contains("with overflow") {
+    // `/` and `%` check MIN / -1 in every profile; + - * and negation only with overflow checks on
+    if desc.contains("with overflow") && !desc.contains("remainder with overflow") && !desc.contains("divide with overflow") {
         " [overflow check of the verif/debug profile: a plain release build does not panic here but continues with the wrapped value]"
     } else {
         " [panics in every build profile]"
